@@ -103,6 +103,10 @@ func cliSetup(dir string) {
 	os.WriteFile(filepath.Join(dir, "b.txt"), []byte("bab"), 0o644)
 	os.WriteFile(filepath.Join(dir, "c.md"), []byte("aaa"), 0o644)
 	os.WriteFile(filepath.Join(dir, "a.txt.vored"), []byte("STALE STALE STALE STALE"), 0o644)
+	// output files left over from an earlier, larger run: they must be replaced, not overwritten in place
+	stale := "[" + strings.Repeat("{\"stale\":true},", 400) + "{}]"
+	os.WriteFile(filepath.Join(dir, "out.json"), []byte(stale), 0o644)
+	os.WriteFile(filepath.Join(dir, "fout.json"), []byte(stale), 0o644)
 }
 
 func runC18(c *Ctx) {
@@ -230,6 +234,8 @@ func c18Case(c *Ctx, k cliCfg) {
 		}
 		got[n] = b
 	}
+	delete(expected, "out.json")
+	delete(expected, "fout.json")
 	if fmtDirFull(got) != fmtDirFull(expected) {
 		c.Violation("DIRECTORY mode="+cliModes[k.mode]+fmt.Sprintf(" prog%d", k.prog), fmt.Sprintf("%s: directory is {%s}, the library leaves {%s}", desc, fmtDir(got), fmtDir(expected)), rec)
 		return
